@@ -18,6 +18,11 @@
              the real s-domain analysis (tools/impl_ac.py); evaluated inside Coq over Q(i) (props/C14model.v):
              every matrix entry, the solution vectors, source phasors, reported V/I phasors vs
              sum P_k H_k(j omega), immittances, transfer(..)(j omega), v(t) coefficients, phasor round trips
+  symbolic   sources whose angular frequency is a SYMBOL (omega_0, w1): the ac sub-netlist, the s-domain route, the
+             reported phasors, immittances, H(j omega) and v(t) are rational functions of the symbol; they go through the
+             same in-Coq correspondence at rational sample points, as many as the degree bound asks for
+             (theory/PhasorSym.v: poly_vanishes_from_points, rat_points_determine, sympoints_decide; props/C14sym.v:
+             leafZ_rat_spec, leaf_Z_sampling), the guard sympoints_ok being evaluated in Coq
   search     independent textbook phasor MNA in exact Gaussian-rational arithmetic on the netlist text;
              ODE substitution of the reconstructed sinusoid for series RC / RL / RLC; symbolic-phase
              sinusoid -> phasor -> time round trips
@@ -44,14 +49,19 @@ MANIFEST = {
             'source phasor x transfer function(j omega); sinusoid -> phasor -> time is the identity (algebraically and over the reals, '
             'where d/dt is multiplication by j omega); every branch of the same-frequency term merge (ACChecker._is_sum_ac: y = 0, x = 0, '
             'polar sqrt/atan2) yields the sum of the terms\' phasors, and the frequency-response read-out (Expr.magnitude / phase / dB) '
-            'reconstructs H(j omega) - the sqrt/atan2 contract is proved over the reals (polar_R_right/left). The model is tied to the '
+            'reconstructs H(j omega) - the sqrt/atan2 contract is proved over the reals (polar_R_right/left). A symbolic angular '
+            'frequency is an indeterminate: every compared quantity is a rational function of it, and agreement at more distinct points '
+            'than the cross-multiplied degree is identity (poly_vanishes_from_points, rat_points_determine, sympoints_decide; the table '
+            'immittance at s = j w is such a function, leafZ_rat_spec / leaf_Z_sampling). The model is tied to the '
             'code by evaluating it inside Coq over Q(i) on what the real ac and s-domain analyses returned.',
     'note': 'Trusted: Coq kernel/vm_compute; tools/tr_stamps.py, tools/tr_immittance.py; spec coq/theory/Circuit.v; hand models '
             'props/C14model.v, theory/MNA.v (validated by correspondence); "evaluate at s = j omega" is an abstract partial homomorphism '
             '(sympy substitution and linear solve are modelled oracles whose contract is checked per case); ACChecker term recognition '
             '(which inputs are accepted: refusals of non-sinusoids are searched, not proved), Superposition decomposition, sympy '
-            'sqrt/atan2/log10 evaluation and CPE powers s**alpha are oracles validated by correspondence; symbolic omega, symbolic '
-            'amplitudes and symbolic phases are covered by the search oracle only; PhasorReal.v uses the standard-library real-number axioms (printed).',
+            'sqrt/atan2/log10 evaluation and CPE powers s**alpha are oracles validated by correspondence; symbolic angular frequencies go through the '
+            'in-Coq correspondence at sample points (the degree of the expressions of the real code is measured with sympy; the degree of a '
+            'model entry, a + b j w + c / (j w), is by inspection of the stamps except for the leaf immittances, where it is proved); '
+            'symbolic amplitudes and symbolic phases are covered by the search oracle only; PhasorReal.v uses the standard-library real-number axioms (printed).',
     'technique': 'Coq proof over stamps/tables translated from source (homomorphism transport, linearity, uniqueness, polar form) + in-Coq correspondence over Q(i) + textbook phasor-MNA/ODE/metamorphic search oracle',
 }
 
@@ -60,7 +70,7 @@ CNAMES = ['RC', 'L', 'V', 'AM', 'I', 'VCVS', 'VCCS', 'CCCS', 'CCVS', 'K', 'TF', 
 PNAMES = ['pY', 'pZ', 'pIsc', 'pVoc', 'pArg0', 'pArg1', 'pAlpha', 'pEps', 'pA11', 'pA12', 'pA21', 'pA22',
           'pY11', 'pY12', 'pY21', 'pY22', 'pZM0', 'pZM1', 'pZL1', 'pZL2', 'pK']
 SKINDS = {'s': 'KS', 'laplace': 'KLaplace', 'transient': 'KTransient'}
-PROPS = ['C01model.v', 'C14.v', 'C14reg.v', 'C14imm.v', 'C01.v', 'C01net.v', 'C14net.v', 'C14model.v']
+PROPS = ['C01model.v', 'C14.v', 'C14reg.v', 'C14imm.v', 'C01.v', 'C01net.v', 'C14net.v', 'C14model.v', 'C14sym.v']
 
 
 def log(msg):
@@ -99,7 +109,21 @@ OMEGAS = [Fraction(1), Fraction(2), Fraction(3), Fraction(1, 2), Fraction(3, 2),
 PHI = {0: '0', 1: '{pi/2}', -1: '{-pi/2}', 2: '{pi}'}
 
 
+def is_symw(w):
+    """an angular frequency given as a symbol name"""
+    return isinstance(w, str) and re.match(r'^[A-Za-z_]\w*$', w) is not None
+
+
+def wkey_of(w):
+    if is_symw(w):
+        return w
+    w = Fraction(w)
+    return '%d/%d' % (w.numerator, w.denominator)
+
+
 def sym(x):
+    if is_symw(x):
+        return x
     x = Fraction(x)
     return str(x.numerator) if x.denominator == 1 else '(%d/%d)' % (x.numerator, x.denominator)
 
@@ -150,8 +174,7 @@ def src_P(d):
     """{omega string 'p/q': [re, im]}"""
     out = {}
     for t in src_terms(d):
-        w = Fraction(t['w'])
-        key = '%d/%d' % (w.numerator, w.denominator)
+        key = wkey_of(t['w'])
         re_, im_ = term_phasor(t)
         o = out.get(key, (Fraction(0), Fraction(0)))
         out[key] = (o[0] + re_, o[1] + im_)
@@ -160,7 +183,7 @@ def src_P(d):
 
 def has_same_omega_terms(case):
     for s_ in case['src']:
-        ws = [Fraction(t['w']) for t in src_terms(s_['desc'])]
+        ws = [wkey_of(t['w']) for t in src_terms(s_['desc'])]
         if len(ws) != len(set(ws)):
             return True
     return False
@@ -201,6 +224,8 @@ def gen_cases(rng, tier):
     return cases
 
 
+SYM_POINTS = {'omega_0': ['3/2', '2', '5/3', '7/2', '1/3', '4', '5/2', '7/3', '9/2', '6', '1/5', '8/3', '10/3', '7/4', '9/5', '11/6', '13/3'],
+              'w1': ['1/2', '3', '7/5', '5', '2/3', '9/4', '11/2', '1/4', '7', '3/4', '5/4', '11/3', '13/2', '8/5', '11/4', '13/6', '17/3']}
 CORPUS = [
     # RC / RL / RLC dividers of test_phasor-like shape, several sources, sin forms, phases
     {'netlist': ['V1 1 0 ac 3 0 2', 'R1 1 2 2', 'C1 2 0 {1/3}'], 'src': [{'name': 'V1', 'prefix': 'V1 1 0', 'desc': {'form': 'ac', 'A': '3', 'k': 0, 'w': '2'}}],
@@ -238,6 +263,19 @@ CORPUS = [
              {'name': 'I1', 'prefix': 'I1 0 2', 'desc': {'form': 'ac', 'A': '2', 'k': 0, 'w': '3/2'}}]},
     {'netlist': ['V1 1 0 ac 2', 'R1 1 2 1', 'L1 2 0 2', 'L2 3 0 2', 'K1 L1 L2 {1/2}', 'R2 3 0 4', 'C1 3 0 {1/5}'], 'omega_subs': '2',
      'src': [{'name': 'V1', 'prefix': 'V1 1 0', 'desc': {'form': 'ac', 'A': '2', 'k': 0, 'w': '2'}}]},
+    # the same two, and a two-symbol circuit with a t-domain source and a dc offset, with the symbol kept as an
+    # indeterminate: in-Coq correspondence at (degree bound + 1) sample points
+    {'netlist': ['V1 1 0 ac 3 {pi/2}', 'R1 1 2 2', 'C1 2 0 {1/3}', 'L1 2 3 4', 'R2 3 0 5', 'I1 0 2 ac 2'],
+     'omega_points': {'omega_0': SYM_POINTS['omega_0']}, 'ntime': 2, 'transfer': ['1', '0', '3', '0'], 'transfer_src': 'V1', 'transfer_elt': 'R2',
+     'src': [{'name': 'V1', 'prefix': 'V1 1 0', 'desc': {'form': 'ac', 'A': '3', 'k': 1, 'w': 'omega_0'}},
+             {'name': 'I1', 'prefix': 'I1 0 2', 'desc': {'form': 'ac', 'A': '2', 'k': 0, 'w': 'omega_0'}}]},
+    {'netlist': ['V1 1 0 ac 2', 'R1 1 2 1', 'L1 2 0 2', 'L2 3 0 2', 'K1 L1 L2 {1/2}', 'R2 3 0 4', 'C1 3 0 {1/5}'],
+     'omega_points': {'omega_0': SYM_POINTS['omega_0']}, 'ntime': 2, 'transfer': ['1', '0', '3', '0'], 'transfer_src': 'V1', 'transfer_elt': 'R2',
+     'src': [{'name': 'V1', 'prefix': 'V1 1 0', 'desc': {'form': 'ac', 'A': '2', 'k': 0, 'w': 'omega_0'}}]},
+    {'netlist': ['V1 1 0 {3*sin(w1*t)}', 'R1 1 2 2', 'L1 2 0 {1/3}', 'I1 0 2 {2*cos(omega_0*t + pi/2) + 2}', 'C1 2 0 {1/4}'],
+     'omega_points': {'omega_0': SYM_POINTS['omega_0'], 'w1': SYM_POINTS['w1']}, 'ntime': 2,
+     'src': [{'name': 'V1', 'prefix': 'V1 1 0', 'desc': {'form': 't', 'terms': [{'f': 'sin', 'A': '3', 'k': 0, 'w': 'w1'}]}},
+             {'name': 'I1', 'prefix': 'I1 0 2', 'desc': {'form': 't', 'terms': [{'f': 'cos', 'A': '2', 'k': 1, 'w': 'omega_0'}]}}]},
     # a t-domain source that is a PRODUCT of two sinusoids, cos(t) cos(2t) = cos(t)/2 + cos(3t)/2
     {'netlist': ['V1 1 0 {cos(t)*cos(2*t)}', 'R1 1 2 2', 'C1 2 0 {1/4}'], 'product_source': True,
      'src': [{'name': 'V1', 'prefix': 'V1 1 0', 'desc': {'form': 't', 'terms': [{'f': 'cos', 'A': '1/2', 'k': 0, 'w': '1'}, {'f': 'cos', 'A': '1/2', 'k': 0, 'w': '3'}]}}]},
@@ -328,6 +366,69 @@ def gen_symphase_cases(rng, tier):
                 lines.append('C9 %s 0 {1/2}' % nd[0])
         out.append({'mode': 'symphase', 'netlist': lines})
     return out
+
+
+def gen_symomega_cases(rng, tier):
+    """circuits whose sources carry a SYMBOLIC angular frequency: `ac A phi` (the default omega_0), `ac A phi w1`,
+    t-domain A*cos/sin(omega_0*t + k pi/2) (now and then with a dc offset, which adds the kind 'dc' to the circuit).
+    One or two symbols per circuit.  The worker evaluates every rational function of the symbol at the first
+    (degree bound + 1) values of SYM_POINTS[symbol]; each point then goes through the whole correspondence."""
+    out = []
+    n = 5 if tier == 'quick' else 36
+    allow = ['E', 'G', 'H', 'F', 'TF', 'GY', 'K', 'W', 'AM', 'dup']
+    for i in range(n):
+        nl = netgen.gen_netlist(rng, 's', size=rng.choice([2, 2, 3]) if tier == 'quick' else rng.choice([2, 3, 3, 4]),
+                                extras=(i % 2 == 1), allow=allow)
+        names = ['omega_0'] if i % 3 != 2 else ['omega_0', 'w1']
+        lines, src = [], []
+        for l in nl['lines']:
+            p = l.split()
+            if not re.match(r'^[VI]\d+$', p[0]):
+                lines.append(l)
+                continue
+            wn = names[len(src) % len(names)]
+            A = netgen.val(rng, 1, 6, (1, 1, 2, 3)) * rng.choice([1, 1, 1, -1])
+            prefix = ' '.join(p[:3])
+            if rng.random() < 0.5:
+                k = rng.choice([0, 0, 1, -1, 2])
+                d = {'form': 'ac', 'A': str(A), 'k': k, 'w': wn}
+                val = 'ac %s %s' % (fs(A), PHI[k]) + ('' if wn == 'omega_0' and rng.random() < 0.7 else ' ' + wn)
+            else:
+                tm = {'f': rng.choice(['cos', 'sin']), 'A': str(A), 'k': rng.choice([0, 0, 1, -1, 2]), 'w': wn}
+                d = {'form': 't', 'terms': [tm]}
+                dc = '' if rng.random() < 0.7 else '%s + ' % sym(netgen.val(rng, 1, 4, (1, 1, 2)))
+                val = '{%s%s}' % (dc, term_text(tm))
+            lines.append(prefix + ' ' + val)
+            src.append({'name': p[0], 'prefix': prefix, 'desc': d, 'P': src_P(d)})
+        if not src:
+            continue
+        case = {'netlist': lines, 'src': src, 'tags': sorted(set(nl['tags']) | {'symbolic_omega', 'nsym%d' % len(names)}),
+                'omega_points': {k_: SYM_POINTS[k_] for k_ in names}, 'ntime': 2}
+        vs = [s_ for s_ in src if s_['name'][0] == 'V']
+        two = [l.split() for l in lines if re.match(r'^[RCL]\d+$', l.split()[0])]
+        if vs and two:
+            e = rng.choice(two)
+            case['transfer'] = vs[0]['prefix'].split()[1:3] + e[1:3]
+            case['transfer_src'] = vs[0]['name']
+            case['transfer_elt'] = e[0]
+        out.append(case)
+    return out
+
+
+def inst_case(case, i):
+    """the case with every symbolic angular frequency replaced by its i-th sample value (source descriptions and phasors)"""
+    op = case['omega_points']
+
+    def inst_desc(d):
+        if d['form'] == 'ac':
+            return dict(d, w=op[d['w']][i] if is_symw(d['w']) else d['w'])
+        return dict(d, terms=[dict(t, w=op[t['w']][i] if is_symw(t['w']) else t['w']) for t in d['terms']])
+    c = dict(case)
+    c['src'] = []
+    for s_ in case['src']:
+        d = inst_desc(s_['desc'])
+        c['src'].append(dict(s_, desc=d, P=src_P(d)))
+    return c
 
 
 def gen_sym_cases(rng, tier):
@@ -713,7 +814,7 @@ def entries_lit(A, Zv, nn, mm):
     return ents
 
 
-HEADER = ('Require Import LT.FieldSec LT.Circuit LT.MNA LT.SeqQcI LT.PhasorHom LT.PhasorTime.\n'
+HEADER = ('Require Import LT.FieldSec LT.Circuit LT.MNA LT.SeqQcI LT.PhasorHom LT.PhasorTime LT.PhasorSym.\n'
           'Require Import Gen.StampsGen Gen.C01model Gen.ImmittanceGen Gen.C14 Gen.C14imm Gen.C14model.\n'
           'Local Open Scope Z_scope.\nLocal Open Scope bool_scope.\n')
 
@@ -721,7 +822,7 @@ HEADER = ('Require Import LT.FieldSec LT.Circuit LT.MNA LT.SeqQcI LT.PhasorHom L
 def build_checks(ci, case, wr, tr, res):
     """list of (label, defn or None, coq bool expr)"""
     checks = []
-    srcdesc = {s_['name']: s_['desc'] for s_ in case['src']}
+    case0 = case
     for wkey, ad in wr.get('ac', {}).items():
         if 'error' in ad:
             res.count('ac_kind_error')
@@ -729,9 +830,22 @@ def build_checks(ci, case, wr, tr, res):
         if ad.get('symbolic'):
             res.count('symbolic_omega_kind')      # compared by the search oracle only
             continue
-        sub, sd = ad['sub'], ad['s']
         wl = qc(wkey)
         tag = '%d/%s' % (ci, wkey.replace('/', '_'))
+        sp_ = ad.get('sympoint')
+        case = inst_case(case0, sp_['i']) if sp_ else case0
+        times = wr.get('time_pts', {}).get(str(sp_['i']), {}) if sp_ else wr.get('time', {})
+        if sp_:
+            tag = '%d/%s@%s' % (ci, sp_['sym'], wkey.replace('/', '_'))
+            res.count('symbolic_omega_points')
+            if sp_['i'] == 0:
+                # the guard of theorem sympoints_decide, evaluated in Coq: distinct points, more of them than the degree bound
+                complete = sp_['n'] > sp_['bound']
+                res.count('symbolic_omega_kinds_' + ('complete' if complete else 'partial'))
+                checks.append((tag + '/sympoints', None, 'sympoints_ok (K:=QcF) %d%%nat [%s]' % (
+                    sp_['bound'] if complete else sp_['n'] - 1, '; '.join(qc(x) for x in sp_['points']))))
+        srcdesc = {s_['name']: s_['desc'] for s_ in case['src']}
+        sub, sd = ad['sub'], ad['s']
         # --- source phasors as built by the constructors / from_time, from the ac sub-netlist
         for e in sub['elements']:
             if e['name'] in srcdesc:
@@ -801,7 +915,7 @@ def build_checks(ci, case, wr, tr, res):
         elif 'transfer' in case:
             res.count('transfer_hang' if isinstance(ad.get('transfer'), dict) and ad['transfer'].get('hang') else 'transfer_unavailable')
         # --- time domain
-        for nm, tp in wr.get('time', {}).items():
+        for nm, tp in times.items():
             if 'error' in tp or tp.get('rest') != '0' or not isinstance(ad['V'].get(nm), str):
                 res.count('time_unavailable')
                 continue
@@ -839,7 +953,7 @@ def build_checks(ci, case, wr, tr, res):
             raws.append(r)
         if not ok:
             continue
-        es = 'es_%d_%s' % (ci, re.sub(r'\W', '_', wkey))
+        es = 'es_%d_%s' % (ci, re.sub(r'\W', '_', (sp_['sym'] + '_at_' if sp_ else '') + wkey))
         defn = 'Definition %s : list rawc := [%s].' % (es, ';\n  '.join(raws))
         kc = SKINDS[sd['kind']]
         exp = []
@@ -898,7 +1012,7 @@ def ode_cases():
 def run(tier='quick', replay=None):
     res = core.Result(PID, tier)
     rng = random.Random(core.seed() * 104729 + 14)
-    core.ensure_theory(['FieldSec', 'Circuit', 'MNA', 'SeqQcI', 'PhasorHom', 'PhasorTime', 'PhasorReal'])
+    core.ensure_theory(['FieldSec', 'Circuit', 'MNA', 'SeqQcI', 'PhasorHom', 'PhasorTime', 'PhasorReal', 'PolyQ', 'PhasorSym'])
     w = core.Work(PID)
     violations = []
     try:
@@ -946,6 +1060,8 @@ def run(tier='quick', replay=None):
             allr.update(r0)
             if all(r[0] for r in r0.values()):
                 r1 = core.coqc_many(w.dir, ['C01model.v', 'C14.v', 'C14reg.v', 'C14imm.v', 'C01.v', 'C14axioms.v'], timeout=1500)
+                if r1['C14imm.v'][0]:
+                    allr.update(core.coqc_many(w.dir, ['C14sym.v'], timeout=600))
                 allr.update(r1)
                 if r1['C01model.v'][0] and r1['C14.v'][0] and r1['C14imm.v'][0]:
                     r2 = core.coqc_many(w.dir, ['C14model.v'] + (['C01net.v'] if r1['C01.v'][0] else []), timeout=900)
@@ -968,7 +1084,7 @@ def run(tier='quick', replay=None):
             for f, t in texts.items():
                 w.write(f, t)
             bad = core.gate_text('generated+props', '\n'.join(texts.values()))
-            for f in ('PhasorHom.v', 'PhasorTime.v', 'PhasorReal.v'):
+            for f in ('PhasorHom.v', 'PhasorTime.v', 'PhasorReal.v', 'PhasorSym.v'):
                 bad += core.gate_text(f, open(os.path.join(core.COQ_THEORY, f)).read())
             if bad:
                 res.failed_obl.append(('gate', 'props', '; '.join(bad)))
@@ -978,7 +1094,7 @@ def run(tier='quick', replay=None):
             prover = threading.Thread(target=prove)
             prover.start()
             res.extra['immittance_table'] = ti.summary()
-        for f in ('PhasorHom.v', 'PhasorTime.v', 'PhasorReal.v'):
+        for f in ('PhasorHom.v', 'PhasorTime.v', 'PhasorReal.v', 'PhasorSym.v'):
             names = core.obligations_in(open(os.path.join(core.COQ_THEORY, f)).read())
             res.obligations += len(names)
             res.discharged += len(names)
@@ -986,6 +1102,8 @@ def run(tier='quick', replay=None):
 
         # ---- correspondence + oracle ------------------------------------------------------
         cases = [dict(c) for c in CORPUS] + gen_cases(rng, tier) + gen_sym_cases(rng, tier)
+        # own generator state: the families above keep the inputs they had before this family was added
+        cases += gen_symomega_cases(random.Random(core.seed() * 104729 + 1414), tier)
         pcases = gen_phasor_cases(rng, tier)
         ocases = ode_cases() + gen_symphase_cases(rng, tier)
         if replay and 'case' in replay:
@@ -1024,9 +1142,11 @@ def run(tier='quick', replay=None):
             nontriv = bool(wr.get('ac'))
             res.count('ac_kinds', len(wr.get('ac', {})))
             # independent oracle
+            case0 = case
             for wkey, ad in wr.get('ac', {}).items():
                 if 'error' in ad:
                     continue
+                case = inst_case(case0, ad['sympoint']['i']) if ad.get('sympoint') else case0
                 try:
                     o = oracle_solve(case, wkey)
                 except Exception as ex:          # an oracle crash is never a verdict
@@ -1039,7 +1159,7 @@ def run(tier='quick', replay=None):
                 oV, oI = o
                 if isinstance(ad.get('transfer'), dict) and ad['transfer'].get('hang'):
                     # non-termination (measured in CPU seconds of the worker) is a failure of the real code on this input
-                    res.counterexamples.append({'case': case, 'omega': wkey,
+                    res.counterexamples.append({'case': case0, 'omega': wkey,
                                                 'ladder': any('laddernetworkmaker' in x for x in ad['transfer'].get('where', [])),
                                                 'what': 'transfer(%s) does not terminate' % ','.join(case['transfer']),
                                                 'reported': ad['transfer']['error'], 'expected': 'a transfer function'})
@@ -1056,7 +1176,7 @@ def run(tier='quick', replay=None):
                         tr_, ti_ = gpair(ad['transfer'])
                         res.count('oracle_transfer_evaluated')
                         if not (hv.r == tr_ and hv.i == ti_):
-                            res.counterexamples.append({'case': case, 'omega': wkey, 'ladder': bool(ad.get('transfer_ladder')),
+                            res.counterexamples.append({'case': case0, 'omega': wkey, 'ladder': bool(ad.get('transfer_ladder')),
                                                         'what': 'transfer(%s)(j*%s)' % (','.join(case['transfer']), wkey),
                                                         'reported': ad['transfer'], 'expected': '%s,%s' % (hv.r, hv.i)})
                 for attr, od in (('V', oV), ('I', oI)):
@@ -1066,8 +1186,9 @@ def run(tier='quick', replay=None):
                             continue
                         rr, ri = gpair(rep)
                         if not (val.r == rr and val.i == ri):
-                            res.counterexamples.append({'case': case, 'omega': wkey, 'what': '%s.%s[%s]' % (nm, attr, wkey),
+                            res.counterexamples.append({'case': case0, 'omega': wkey, 'what': '%s.%s[%s]' % (nm, attr, wkey),
                                                         'reported': rep, 'expected': '%s,%s' % (val.r, val.i)})
+            case = case0
             res.add_case('\n'.join(case['netlist']), nontriv,
                          {'netlist': case['netlist'], 'kinds': wr.get('kinds')} if len(res.samples) < 4 else None)
             if tr is None or not model_ok:
